@@ -43,8 +43,10 @@ def loop_spec(eng, fr, node):
     if func is None:
         return None, None
     o = loop_ordinal(func, node)
-    c = eng.registry.get(func.key)
     top = eng.cur_contract
+    if top is not None and eng.cur_key == func.key and top.key == func.key:
+        return top.loops.get(o), o  # the contract being verified (several contracts of one function may be registered)
+    c = eng.registry.get(func.key)
     if c is not None and (eng.cur_key == func.key):
         return c.loops.get(o), o
     if top is not None and func.key in top.inlined_loops:
